@@ -1,1 +1,226 @@
-import PydraModel.Hash.Model
+import PydraModel.Hash.Discriminate2
+import PydraModel.Hash.LemmasMemo
+import PydraModel.Hash.Sources
+/-
+C08 — Value hashing is deterministic, discriminating and context-free.
+
+Property theorems only (models: `Hash/Model.lean`; lemmas: `Hash/Lemmas*.lean`, `Hash/OrderIndep.lean`,
+`Hash/Discriminate*.lean`).  The digest function `H` is a parameter everywhere; the only assumption ever made about it is
+that it returns 16 bytes (`digest_size=16`).
+
+FULL STATEMENT (kept visible; NOT provable for the tree as it is):
+  `def C08_full_statement` below — for ALL values: same content ⇒ same hash; different content ⇒ different hash or a
+  collision of H; hashing inside any context = hashing alone.
+What the tree violates and where the partial theorems stop:
+  * sets/dicts are ordered with Python's `<` on the elements: only a partial order on sets of sets, a TypeError on
+    unorderable classes (D6)  →  `C08_order_indep` needs `sortable v`; witness `C08_witness_partial_order`;
+  * a back reference is answered with the one-byte placeholder (D61)  →  `C08_context_free` needs `UniqueIds`
+    (tree / DAG values); witness `C08_witness_cycle`;
+  * PEP 585 aliases and lambdas lose their content before any byte is produced (D60, D62): the model's value grammar
+    represents what the serializer *sees* (an object without distinguishing attributes; an empty chunk list), so these
+    two are witnessed on the implementation by the harness, not by a Lean theorem.
+-/
+namespace PydraModel.Hash
+open PydraModel.Gen
+
+/-- the byte strings fed to `H` while `v` is hashed alone -/
+def inputsOf (H : Bytes → Bytes) (v : PyVal) : List Bytes :=
+  match pre v with
+  | .ok p => Pre.inputs H p
+  | .error _ => []
+
+/-- hashing a sequence of values with ONE `Cache` (what `_compute_hashes` does with the field values) -/
+def hashSeq (H : Bytes → Bytes) : List PyVal → Memo → Except Err (List Bytes)
+  | [], _ => .ok []
+  | v :: vs, m => do
+    let r ← hashWith H v m
+    let rest ← hashSeq H vs r.2
+    pure (r.1 :: rest)
+
+/-- every value hashed alone -/
+def hashEachAlone (H : Bytes → Bytes) : List PyVal → Except Err (List Bytes)
+  | [] => .ok []
+  | v :: vs => do
+    let h ← hashAlone H v
+    let rest ← hashEachAlone H vs
+    pure (h :: rest)
+
+/-- The property at full strength (for reference; refuted for the current tree by the two witness theorems). -/
+def C08_full_statement : Prop :=
+  ∀ (H : Bytes → Bytes), (∀ x, (H x).length = 16) →
+    (∀ v w, Equiv v w → ∃ h, hashAlone H v = .ok h ∧ hashAlone H w = .ok h)
+    ∧ (∀ v (m : Memo) p, pre v = .ok p → (hashWith H v m).map (·.1) = hashAlone H v)
+
+/-! ### order independence (deterministic function of type and content) -/
+
+/-- `sorted` of a permutation is the same list, whenever `<` answers on all pairs of elements and is a strict
+    total order on them (stated for the model of CPython's `list.sort` for fewer than 64 elements). -/
+theorem C08_sorted_perm {α : Type} (lt : α → α → Except Err Bool) (ltb : α → α → Bool) (xs ys : List α)
+    (hp : xs.Perm ys) (ha : AgreeOn lt ltb xs) (ht : TotalOn ltb xs) :
+    pySorted lt xs = pySorted lt ys ∧ ∃ s, pySorted lt xs = .ok s ∧ s.Perm xs ∧ SortedB ltb s := by
+  obtain ⟨h1, h2⟩ := pySorted_perm_eq lt ltb xs ys hp ha ht
+  exact ⟨h1, _, h2, pySortedB_perm ltb xs, pySortedB_sorted ltb xs ht⟩
+
+/-- PARTIAL (hypothesis `sortable v`, decidable): two values with the same type and content — whatever the
+    iteration order of their sets, the insertion order of their dicts, the identity of their parts — get the same
+    hash, and hashing them does not fail. -/
+theorem C08_order_indep (H : Bytes → Bytes) (v w : PyVal) (he : Equiv v w) (hs : sortable v = true) :
+    ∃ h, hashAlone H v = .ok h ∧ hashAlone H w = .ok h := by
+  obtain ⟨p, q, h1, h2, h3⟩ := order_indep_val H v w he hs
+  refine ⟨evalPure H p, ?_, ?_⟩
+  · simp [hashAlone, h1, Except.map]
+  · simp [hashAlone, h2, Except.map, h3.evalPure_eq]
+
+/-! ### discrimination (collision-extraction form) -/
+
+/-- Equal hashes of two values of the grammar `G₀` (decidable `inG0`): the values have the same type and content,
+    or two different byte strings among those fed to `H` while hashing them have the same digest. -/
+theorem C08_discriminates (H : Bytes → Bytes) (hlen : ∀ x, (H x).length = 16) (v w : PyVal)
+    (gv : inG0 v = true) (gw : inG0 w = true) (hv hw : Bytes)
+    (h1 : hashAlone H v = .ok hv) (h2 : hashAlone H w = .ok hw) (he : hv = hw) :
+    Equiv v w ∨ Collision H (inputsOf H v ++ inputsOf H w) := by
+  unfold hashAlone at h1 h2
+  cases hp : pre v with
+  | error e => rw [hp] at h1; cases h1
+  | ok p =>
+    cases hq : pre w with
+    | error e => rw [hq] at h2; cases h2
+    | ok q =>
+      rw [hp] at h1; rw [hq] at h2
+      simp only [Except.map, Except.ok.injEq] at h1 h2
+      have := disc_val H hlen v w p q gv gw hp hq (by rw [h1, h2, he])
+      simpa [inputsOf, hp, hq] using this
+
+/-- Dict keys are self-delimiting: the serialisation of a scalar key is a prefix code, so no key followed by
+    `=`, a digest and `,` can be read as another key (unique parsing of mapping contents). -/
+theorem C08_keys_self_delimiting {a b : Scalar} (ha : a.WF) (hb : b.WF) {r r' : Bytes}
+    (h : encScalar a ++ r = encScalar b ++ r') : a = b ∧ r = r' := encScalar_prefix_code ha hb h
+
+/-! ### context-freeness (transparency of the id-keyed memo) -/
+
+/-- PARTIAL (hypothesis `UniqueIds W (pre v)`: live objects have unique ids and the value is a tree or DAG):
+    `hash_single` started with ANY memo left behind by earlier hashing of such values returns the hash the value gets
+    alone, and leaves such a memo behind. -/
+theorem C08_context_free (H : Bytes → Bytes) (W : Nat → Option Pre) (v : PyVal) (p : Pre) (m : Memo)
+    (hp : pre v = .ok p) (hu : UniqueIds W p) (hs : Sound H W [] m) :
+    ∃ m', hashWith H v m = .ok (evalPure H p, m') ∧ hashAlone H v = .ok (evalPure H p) ∧ Sound H W [] m' := by
+  obtain ⟨h1, h2⟩ := evalMemo_pure H W p [] m hu hs (by simp) (by simp)
+  refine ⟨(evalMemo H p m).2, ?_, ?_, h2⟩
+  · simp only [hashWith, hp, Except.map]
+    rw [← h1]
+  · simp [hashAlone, hp, Except.map]
+
+/-- … hence a whole sequence of values hashed with one `Cache` gets exactly the hashes the values get alone. -/
+theorem C08_context_free_seq (H : Bytes → Bytes) (W : Nat → Option Pre) :
+    ∀ (vs : List PyVal) (m : Memo), Sound H W [] m → (∀ v ∈ vs, ∃ p, pre v = .ok p ∧ UniqueIds W p) →
+      hashSeq H vs m = hashEachAlone H vs
+  | [], _, _, _ => rfl
+  | v :: vs, m, hs, hall => by
+    obtain ⟨p, hp, hu⟩ := hall v (by simp)
+    obtain ⟨m', h1, h2, h3⟩ := C08_context_free H W v p m hp hu hs
+    have ih := C08_context_free_seq H W vs m' h3 (fun x hx => hall x (by simp [hx]))
+    simp only [hashSeq, hashEachAlone, h1, h2, except_bind_ok, ih]
+
+/-- `hash_function(v)` (fresh `Cache`) is the pure hash for tree / DAG values. -/
+theorem C08_hashFunction_pure (H : Bytes → Bytes) (W : Nat → Option Pre) (v : PyVal) (p : Pre)
+    (hp : pre v = .ok p) (hu : UniqueIds W p) : hashFunction H v = hashAlone H v := by
+  obtain ⟨m', h1, h2, _⟩ := C08_context_free H W v p [] hp hu (by intro i d h; simp [Memo.find] at h)
+  simp [hashFunction, h1, h2, Except.map]
+
+/-! ### witnesses -/
+
+def sA : PyVal := .set 2 true [.sc (.str [97]), .sc (.str [98])]     -- frozenset({'a', 'b'})
+def sB : PyVal := .set 3 true [.sc (.str [99]), .sc (.str [100])]    -- frozenset({'c', 'd'})
+/-- `frozenset({sA, sB})` iterated sA first / sB first (what PYTHONHASHSEED decides) -/
+def d6a : PyVal := .set 1 true [sA, sB]
+def d6b : PyVal := .set 1 true [sB, sA]
+
+def frozensetOpen : Bytes := setName true ++ HashLits.setOpen
+
+/-- WITNESS (D6): the two iteration orders of `{{'a','b'},{'c','d'}}` have the same content, are outside `sortable`,
+    `sorted` leaves each order as it is, and the byte strings finally fed to `H` carry the two inner digests in opposite
+    orders: the hashes can only agree if `H` collides on those two strings or on the two inner sets. -/
+theorem C08_witness_partial_order (H : Bytes → Bytes) (hlen : ∀ x, (H x).length = 16) :
+    Equiv d6a d6b ∧ sortable d6a = false
+    ∧ ∃ ha hb x y, hashAlone H sA = .ok ha ∧ hashAlone H sB = .ok hb
+        ∧ x = frozensetOpen ++ (ha ++ (hb ++ HashLits.setClose)) ∧ y = frozensetOpen ++ (hb ++ (ha ++ HashLits.setClose))
+        ∧ hashAlone H d6a = .ok (H x) ∧ hashAlone H d6b = .ok (H y)
+        ∧ (ha ≠ hb → x ≠ y) := by
+  refine ⟨?_, by decide, ?_⟩
+  · simp only [d6a, d6b, Equiv]
+    refine ⟨trivial, [sA, sB], List.Perm.swap _ _ _, ?_⟩
+    simp only [EquivList, sA, sB, Equiv]
+    exact ⟨⟨trivial, _, List.Perm.refl _, by simp [EquivList, Equiv]⟩,
+      ⟨trivial, _, List.Perm.refl _, by simp [EquivList, Equiv]⟩, trivial⟩
+  · refine ⟨_, _, _, _, rfl, rfl, rfl, rfl, ?_, ?_, ?_⟩
+    · show hashAlone H d6a = _
+      rfl
+    · show hashAlone H d6b = _
+      rfl
+    · intro hne heq
+      have h1 := List.append_cancel_left heq
+      have hl : (H (evalPureList H [lit frozensetOpen, Pre.node 0 [lit (encScalar (.str [97]))],
+          Pre.node 0 [lit (encScalar (.str [98]))], lit HashLits.setClose])).length = 16 := hlen _
+      obtain ⟨e1, _⟩ := List.append_inj h1 (by
+        show (evalPure H _).length = (evalPure H _).length
+        simp only [evalPure]
+        rw [hlen, hlen])
+      exact hne e1
+
+/-- `a = [b, 1]`, `b = [a]` seen from `a` (ids 1 and 2). -/
+def cycA : PyVal := .seq 1 .list [.seq 2 .list [.ref 1], .sc (.int 1)]
+/-- the same two objects seen from `b` -/
+def cycB : PyVal := .seq 2 .list [.seq 1 .list [.ref 2, .sc (.int 1)]]
+
+def listOpen : Bytes := seqOpenLit .list
+
+/-- WITNESS (D61): `a` hashed after `b` with the same `Cache` is served from the memo with the digest it got while
+    `b` was in progress — computed from the ONE-byte placeholder — whereas alone it is computed from `b`'s 16-byte
+    digest: two different byte strings, so the two hashes of `a` agree only if `H` collides on them. -/
+theorem C08_witness_cycle (H : Bytes → Bytes) (hlen : ∀ x, (H x).length = 16) :
+    ∃ x y hb, x ≠ y ∧ hashSeq H [cycB, cycA] [] = .ok [hb, H x] ∧ hashFunction H cycA = .ok (H y) := by
+  let one := H (encScalar (.int 1))
+  refine ⟨listOpen ++ (HashLits.placeholder ++ (one ++ HashLits.seqClose)),
+    listOpen ++ (H (listOpen ++ (HashLits.placeholder ++ HashLits.seqClose)) ++ (one ++ HashLits.seqClose)), _, ?_, rfl, rfl⟩
+  intro h
+  have h1 := List.append_cancel_left h
+  have := congrArg List.length h1
+  simp only [List.length_append, hlen] at this
+  have hp : HashLits.placeholder.length = 1 := by decide
+  omega
+
+/-! ### non-vacuity -/
+
+/-- a dict with str keys holding a set of ints and a tuple: inside `sortable` and `G₀` -/
+def exVal : PyVal :=
+  .dict 1 [(.str [98], .set 2 false [.sc (.int 3), .sc (.int 1), .sc (.int 2)]),
+           (.str [97], .seq 3 .tuple [.sc (.float 0), .sc .none])]
+/-- the same content: other insertion order, other iteration order, other identities -/
+def exVal' : PyVal :=
+  .dict 7 [(.str [97], .seq 8 .tuple [.sc (.float 0), .sc .none]),
+           (.str [98], .set 9 false [.sc (.int 2), .sc (.int 3), .sc (.int 1)])]
+
+example : sortable exVal = true := by decide
+example : inG0 exVal = true ∧ inG0 exVal' = true := by decide
+example : Equiv exVal exVal' := by
+  simp only [exVal, exVal', Equiv]
+  refine ⟨[(.str [98], .set 9 false [.sc (.int 2), .sc (.int 3), .sc (.int 1)]),
+           (.str [97], .seq 8 .tuple [.sc (.float 0), .sc .none])], List.Perm.swap _ _ _, ?_⟩
+  simp only [EquivItems, Equiv, EquivList, and_true, true_and]
+  refine ⟨[.sc (.int 3), .sc (.int 1), .sc (.int 2)], ?_, by simp [EquivList, Equiv]⟩
+  exact ((List.Perm.swap _ _ _).cons _).trans (List.Perm.swap _ _ _)
+
+/-- a DAG: the list `s` (id 2) occurs twice inside the tuple (id 1) -/
+def exDag : PyVal := .seq 1 .tuple [.seq 2 .list [.sc (.int 1)], .seq 2 .list [.sc (.int 1)]]
+def exS : Pre := .node 2 [lit (seqOpenLit .list), .node 0 [lit (encScalar (.int 1))], lit (seqCloseLit .list)]
+def exP : Pre := .node 1 [lit (seqOpenLit .tuple), exS, exS, lit (seqCloseLit .tuple)]
+def exW : Nat → Option Pre := fun i => if i = 1 then some exP else if i = 2 then some exS else none
+
+example : pre exDag = .ok exP ∧ UniqueIds exW exP := by
+  refine ⟨rfl, ?_⟩
+  simp [UniqueIds, UniqueIdsList, exW, exP, exS, lit]
+
+/-- the scalar heads table is what the source says today (regenerated tie) -/
+example : headOfIdx 7 = HashLits.strTag := rfl
+
+end PydraModel.Hash
